@@ -1,5 +1,378 @@
-"""X1 - typed reflection of mirrored code pairs (placeholder until armed)."""
+"""X1 - typed reflection of mirrored code (C11).
+
+Four kinds of instances, all decided by the reflection engine (engine/reflect.py):
+  * function pairs      facts(rho(left function)) == facts(right function)
+  * block pairs         the left / right halves of one function
+  * flag dualities      `A if flag else B`, `if flag ..: S1 else: S2` on a direction flag (read_end / forward): rho(A) == B
+  * interval literals   a 2-tuple (f(S[0]), g(S[-1])) built from the first and last element of one sequence is its own mirror
+Pairs whose canonicaliser meets an unsupported construct are reported as ANALYSIS-ERROR for that pair (never a violation).
+"""
+import ast
+
+from ..engine.program import AnalysisError, dotted, src, walk_no_nested
+from ..engine import reflect
+from ..engine.reflect import Roles
+
+PV = "src/polya_verification.py"
+IG = "src/intron_graph.py"
+GMC = "src/graph_based_model_construction.py"
+LRA = "src/long_read_assigner.py"
+JC = "src/junction_comparator.py"
+AI = "src/alignment_info.py"
+LRP = "src/long_read_profiles.py"
+
+GRAPH_DUAL = {"is_terminal_vertex": "is_starting_vertex", "is_starting_vertex": "is_terminal_vertex",
+              "VERTEX_polya": "VERTEX_polyt", "VERTEX_polyt": "VERTEX_polya",
+              "VERTEX_read_end": "VERTEX_read_start", "VERTEX_read_start": "VERTEX_read_end",
+              "terminal_known_positions": "starting_known_positions", "starting_known_positions": "terminal_known_positions"}
+
+
+def _roles(**kw):
+    csrc = kw.pop("coord_src", ())
+    seq_elem = kw.pop("seq_elem", None)
+    index_vars = kw.pop("index_vars", None)
+    opaque = kw.pop("opaque_index", ())
+    cfuncs = kw.pop("coord_funcs", ())
+    citer = kw.pop("coord_iterables", ())
+    r = Roles(**kw)
+    r.opaque_index |= set(opaque)
+    r.coord_funcs |= set(cfuncs)
+    r.coord_iterables |= set(citer)
+    r.coord_src |= set(csrc)
+    if seq_elem:
+        r.seq_elem.update(seq_elem)
+    if index_vars:
+        for k, v in index_vars.items():
+            r.index_vars[k] = ast.parse(v, mode="eval").body
+    return r
+
+
+FUNCTION_PAIRS = [
+    (PV, "shift_polya", "shift_polyt", dict(returns="C"), "polyA / polyT position shift over fake terminal exons"),
+    (PV, "PolyAFixer.count_polya_exons", "PolyAFixer.count_polyt_exons", {}, "count of exons made of polyA / polyT"),
+    (PV, "PolyAVerifier.verify_polya", "PolyAVerifier.verify_polyt", {}, "3' end verification on + / - strand"),
+    (PV, "PolyAVerifier.check_internal_polya", "PolyAVerifier.check_internal_polyt", {}, "internal priming"),
+    (PV, "PolyAVerifier.correct_polya_positions", "PolyAVerifier.correct_polyt_positions", {}, "position correction"),
+    (PV, "PolyAVerifier.detect_reference_exons_beyond_polya", "PolyAVerifier.detect_reference_exons_before_polyt",
+     dict(inline=["isoform_region"], index_args={("MatchEvent", 1): "len(isoform_exons) - 2"}), "missed terminal reference exons"),
+    (IG, "IntronGraph.get_outgoing", "IntronGraph.get_incoming", dict(extra_dual=GRAPH_DUAL), "graph neighbours"),
+    (IG, "IntronGraph.signleton_dead_end", "IntronGraph.signleton_dead_start", dict(extra_dual=GRAPH_DUAL, other=["clustered_introns"]),
+     "singleton dead ends / starts"),
+    (IG, "IntronGraph.is_end_internal", "IntronGraph.is_start_internal", dict(extra_dual=GRAPH_DUAL), "read end inside next exon"),
+    (GMC, "IntronPathProcessor.thread_ends", "IntronPathProcessor.thread_starts",
+     dict(extra_dual=GRAPH_DUAL, tagged=["v", "rightmost_end", "leftmost_start"], seq=["all_possible_ends", "all_possible_starts"],
+          seq_elem={"all_possible_ends": "T", "all_possible_starts": "T"}), "attaching read ends / starts to graph vertices"),
+]
+
+# (module, function, start-of-left, start-of-right, end marker (exclusive) or None, roles, description)
+BLOCK_PAIRS = [
+    (LRA, "LongReadAssigner.categorize_exon_elongation_subtype", "first_read_exon =", "last_read_exon =", "return events",
+     dict(seq=["read_features", "split_exons"], length=["extra_left", "extra_right"],
+          opaque_index=["common_first_exon", "common_last_exon"]), "terminal exon elongation events, left vs right"),
+    (LRA, "LongReadAssigner.select_similar_isoforms@loop", "extra_left =", "extra_right =", "candidates.append",
+     dict(length=["extra_left", "extra_right"], coord=["transcript_start", "transcript_end"]), "extra terminal bases penalty, left vs right"),
+    (JC, "JunctionComparator.add_extra_out_exon_events", "if extra_left:", "if extra_right:", None,
+     dict(index_vars={"read_pos": "len(read_intron_read_profile) - 1"}, length=["read_pos"],
+          index_args={("get_exon", 2): "len(read_intron_read_profile)", ("MatchEvent", 2): "len(read_intron_read_profile) - 1"},
+          other=["read_introns"], seq=["read_intron_read_profile"]),
+     "flanking extra introns / fake terminal exons, left vs right"),
+    (AI, "AlignmentInfo.add_polya_info", "if polya_exon_count > 0:", "if polyt_exon_count > 0:", "if self.exons_changed:",
+     dict(seq=["read_exons", "read_blocks", "cigar_blocks"], extra_dual={"polya_info": "polya_info"},
+          coord_funcs=["shift_polya", "shift_polyt"]), "trimming polyA / polyT exons"),
+    (GMC, "IntronPathStorage.fill@loop", "read_end =", "read_start =", "path_tuple =",
+     dict(extra_dual=dict(GRAPH_DUAL, polya_info="polya_info", terminal_vertex="starting_vertex", starting_vertex="terminal_vertex"),
+          seq=["intron_path", "corrected_exons"], seq_elem={"intron_path": "I"}), "terminal / starting vertex of a read path"),
+    (IG, "IntronGraph.collect_terminal_positions@loop", "starting_intron =", "terminating_intron =", None,
+     dict(extra_dual=dict(GRAPH_DUAL, polya_info="polya_info", terminating_intron="starting_intron", starting_intron="terminating_intron"),
+          seq=["corrected_introns", "corrected_exons"], other=["polyt_starts", "read_starts", "polya_ends", "read_ends"]),
+     "read start / end positions per terminal intron"),
+]
+
+# direction flags: (module, function, flag name, roles)
+FLAG_FUNCS = [
+    (IG, "IntronGraph.attach_transcpt_ends", "read_end", dict(extra_dual=dict(GRAPH_DUAL, cluster_polya_positions="cluster_polya_positions",
+                                                                             polya_confirmed_positions="polya_confirmed_positions",
+                                                                             read_ends_cutoff="read_ends_cutoff", extra_end_positions="extra_end_positions"),
+                                                             other=["clustered_introns", "read_terminal_positions", "polya_confirmed_positions",
+                                                                    "terminal_positions", "extra_end_positions"],
+                                                             coord=["position", "furtherst_confirmed_position", "pos"],
+                                                             coord_iterables=["clustered_polyas"])),
+    (IG, "IntronGraph.cluster_polya_positions", "read_end", dict(extra_dual=GRAPH_DUAL, coord=["top_position", "nearest_position", "pos", "k"],
+                                                                other=["position_dict", "known_positions"], coord_src=["best_pair[0]"],
+                                                                length=["diff_to_nearest_position"])),
+    (IG, "IntronGraph.cluster_terminal_positions", "read_end", dict(extra_dual=GRAPH_DUAL, coord_iterables=["position_dict"],
+                                                                   other=["position_dict"], coord=["pos"])),
+    (GMC, "GraphBasedModelConstructor.is_internal_monoexonic_read", "forward", dict(seq=["corrected_exons"], interval=["read_coordinates", "e"])),
+    (GMC, "GraphBasedModelConstructor.generate_monoexon_from_clustered", "forward",
+     dict(seq=["corrected_exons"], coord=["five_prime_pos", "three_prime_pos"], interval=["coordinates"])),
+]
+
+# accepted differences: (pair key, side, substring of the fact) -> reason
+ALLOWED = [
+    ("GraphBasedModelConstructor.is_internal_monoexonic_read", None, "read_coordinates :=",
+     "the read is mono-exonic here (single corrected exon), so corrected_exons[0] and corrected_exons[-1] are the same element"),
+]
+
+
+def _find_block(body, start, end_markers):
+    """Consecutive statements starting at the first whose source starts with `start`, up to a statement starting with
+    one of end_markers."""
+    idx = [i for i, st in enumerate(body) if src(st).startswith(start)]
+    if not idx:
+        return None
+    out = []
+    for st in body[idx[0]:]:
+        if out and any(src(st).startswith(m) for m in end_markers if m):
+            break
+        out.append(st)
+    return out
+
+
+def _report(ctx, key, where_node, fq, only_l, only_r, desc):
+    bad = False
+    for side, facts in (("mirror of left", only_l), ("right", only_r)):
+        for guards, fact in facts:
+            text = "%s | under {%s}" % (fact, "; ".join(guards)[:200])
+            if any(k == key and sub in text for k, s_, sub, _why in ALLOWED):
+                continue
+            bad = True
+            ctx.fail("X1", where_node, fq, "%s: %s" % (side, text[:240]),
+                     "%s: this fact of the %s side has no counterpart on the other side after reflection (coordinates negated, "
+                     "interval sides swapped, sequences reversed, left/right names dualised): the two strands are not treated as mirror "
+                     "images here" % (desc, side))
+    return bad
 
 
 def run(prog, ctx):
-    ctx.note("X1 not armed yet")
+    ctx.rule("X1", "typed reflection: function pairs, left/right block pairs, direction-flag branches and first/last interval literals are "
+                   "reduced to multisets of canonical facts (guards and effects in linear normal form over dualised atoms); the mirrored "
+                   "left side must equal the right side")
+    armed = 0
+    unarmed = []
+    for rel, lq, rq, rkw, desc in FUNCTION_PAIRS:
+        fl, fr = prog.func(rel, lq), prog.func(rel, rq)
+        try:
+            only_l, only_r, nl, nr = reflect.compare(fl, fr, _roles(**dict(rkw)))
+        except reflect.Unsupported as e:
+            unarmed.append("%s/%s: %s" % (lq, rq, e))
+            continue
+        armed += 1
+        key = "%s|%s" % (lq, rq)
+        if not _report(ctx, key, fr, "%s / %s" % (lq, rq), only_l, only_r, desc):
+            ctx.ok("X1", "%s:%d" % (rel, fr.lineno), "%s / %s are exact mirror images (%d facts)" % (lq, rq, nr))
+    for rel, fq, lstart, rstart, end, rkw, desc in BLOCK_PAIRS:
+        qual = fq.split("@")[0]
+        f = prog.func(rel, qual)
+        body = f.body
+        if fq.endswith("@loop"):
+            loops = [l for l in f.body if isinstance(l, ast.For)]
+            loops = [l for l in loops if any(src(s).startswith(lstart) for s in l.body)]
+            if not loops:
+                raise AnalysisError("X1 block pair %s: loop containing '%s' not found" % (fq, lstart))
+            body = loops[0].body
+        bl = _find_block(body, lstart, [rstart, end])
+        br = _find_block(body, rstart, [end, lstart])
+        if not bl or not br:
+            raise AnalysisError("X1 block pair %s: blocks '%s' / '%s' not found" % (fq, lstart, rstart))
+        try:
+            only_l, only_r, nl, nr = reflect.compare_blocks(bl, br, f, _roles(**dict(rkw)))
+        except reflect.Unsupported as e:
+            unarmed.append("%s: %s" % (fq, e))
+            continue
+        armed += 1
+        if not _report(ctx, fq, br[0], qual, only_l, only_r, desc):
+            ctx.ok("X1", "%s:%d" % (rel, br[0].lineno), "%s: left and right blocks are exact mirror images (%d facts)" % (qual, nr))
+    # direction flags: the function specialised to flag=True, mirrored, must equal the function specialised to flag=False
+    for rel, fq, flag, rkw in FLAG_FUNCS:
+        f = prog.func(rel, fq)
+        roles = _roles(**dict(rkw))
+        try:
+            body_t = _specialise(f.body, flag, True)
+            body_f = _specialise(f.body, flag, False)
+            from collections import Counter
+            rm = reflect.Reflector(roles, True, f)
+            rp = reflect.Reflector(roles, False, f)
+            rm.inl, rp.inl = {}, {}
+            fl, fr = [], []
+            rm._block(body_t, (), fl)
+            rp._block(body_f, (), fr)
+            key = lambda x: (tuple(sorted(x[0])), x[1])
+            cl, cr = Counter(key(x) for x in fl), Counter(key(x) for x in fr)
+            only_l, only_r = list((cl - cr).elements()), list((cr - cl).elements())
+        except reflect.Unsupported as e:
+            unarmed.append("%s flag %s: %s" % (fq, flag, e))
+            continue
+        armed += 1
+        only_l = [x for x in only_l if not any(k == fq and sub in x[1] for k, _s, sub, _w in ALLOWED)]
+        only_r = [x for x in only_r if not any(k == fq and sub in x[1] for k, _s, sub, _w in ALLOWED)]
+        if only_l or only_r:
+            for side, facts in (("%s=True mirrored" % flag, only_l), ("%s=False" % flag, only_r)):
+                for g, fact in facts:
+                    ctx.fail("X1", f, fq, "%s: %s {%s}" % (side, fact[:170], "; ".join(g)[:150]),
+                             "direction flag `%s`: what this function does for one direction is not the mirror image of what it does for "
+                             "the other (function specialised on the flag, first specialisation reflected)" % flag)
+        else:
+            ctx.ok("X1", "%s:%d" % (rel, f.lineno), "%s: specialisations %s=True (mirrored) and %s=False agree (%d facts)" % (fq, flag, flag, len(fr)))
+    # interval literals from the first and last element of one sequence
+    n_lit = 0
+    for rel in sorted(prog.modules):
+        if not rel.startswith("src/"):
+            continue
+        for q, f in sorted(prog.modules[rel].functions.items()):
+            for node in walk_no_nested(f):
+                if not (isinstance(node, ast.Tuple) and len(node.elts) == 2):
+                    continue
+                a, b = node.elts
+                sa = [x for x in ast.walk(a) if isinstance(x, ast.Subscript) and isinstance(x.value, ast.Subscript)
+                      and isinstance(x.value.slice, ast.Constant) and x.value.slice.value == 0]
+                sb = [x for x in ast.walk(b) if isinstance(x, ast.Subscript) and isinstance(x.value, ast.Subscript)
+                      and isinstance(x.value.slice, ast.UnaryOp) and src(x.value.slice) == "-1"]
+                if len(sa) != 1 or len(sb) != 1 or src(sa[0].value.value) != src(sb[0].value.value):
+                    continue
+                if any(isinstance(x, (ast.Call, ast.IfExp, ast.Compare)) for x in list(ast.walk(a)) + list(ast.walk(b))):
+                    continue
+                base = sa[0].value.value
+                bname = base.id if isinstance(base, ast.Name) else (base.attr if isinstance(base, ast.Attribute) else None)
+                if bname is None:
+                    continue
+                n_lit += 1
+                roles = _roles(seq=[bname])
+                try:
+                    rm = reflect.Reflector(roles, True, f)
+                    rp = reflect.Reflector(roles, False, f)
+                    ma = rm.pos_coord(a)
+                    pb = rp.pos_coord(b)
+                except reflect.Unsupported:
+                    continue
+                if ma != pb:
+                    ctx.fail("X1", node, q, src(node)[:120], "the interval built from the first and the last element of %s is not its own "
+                             "mirror image: the left border mirrors to %s but the right border is %s" % (bname, ma, pb))
+                else:
+                    ctx.ok("X1", "%s:%d" % (rel, node.lineno), "%s: interval literal %s is mirror-symmetric" % (q, src(node)[:60]))
+    ctx.floor("X1", "armed mirrored pairs / flag functions", armed, 14)
+    ctx.floor("X1", "first/last interval literals", n_lit, 8)
+    ctx.extra["x1_unarmed"] = unarmed
+    ctx.extra["x1_armed"] = armed
+    for u in unarmed:
+        ctx.note("X1 pair not armed (canonicaliser met an unsupported construct): " + u)
+
+
+def _specialise(stmts, flag, value):
+    """Partial evaluation of a statement list for a constant boolean flag."""
+    import copy
+    from ..engine.symexec import clone
+
+    def ev(test):
+        """True / False / residual expression."""
+        if isinstance(test, ast.Name) and test.id == flag:
+            return value
+        if isinstance(test, ast.Constant) and isinstance(test.value, bool):
+            return test.value
+        if isinstance(test, ast.UnaryOp) and isinstance(test.op, ast.Not):
+            v = ev(test.operand)
+            return (not v) if isinstance(v, bool) else ast.UnaryOp(op=ast.Not(), operand=v)
+        if isinstance(test, ast.BoolOp):
+            vals = [ev(v) for v in test.values]
+            if isinstance(test.op, ast.And):
+                if any(v is False for v in vals):
+                    return False
+                rest = [v for v in vals if v is not True]
+            else:
+                if any(v is True for v in vals):
+                    return True
+                rest = [v for v in vals if v is not False]
+            if not rest:
+                return isinstance(test.op, ast.And)
+            return rest[0] if len(rest) == 1 else ast.BoolOp(op=test.op, values=rest)
+        return test
+
+    class E(ast.NodeTransformer):
+        def visit_IfExp(s2, node):
+            node = s2.generic_visit(node)
+            v = ev(node.test)
+            if v is True:
+                return node.body
+            if v is False:
+                return node.orelse
+            return node
+
+        def visit_keyword(s2, node):
+            return s2.generic_visit(node)
+
+        def visit_Name(s2, node):
+            if node.id == flag and isinstance(node.ctx, ast.Load):
+                c = ast.Constant(value=value)
+                c._flag = True
+                return c
+            return node
+
+    def block(sts):
+        out = []
+        for st in sts:
+            if isinstance(st, ast.If):
+                v = ev(st.test)
+                if v is True:
+                    out.extend(block(st.body))
+                elif v is False:
+                    out.extend(block(st.orelse))
+                else:
+                    n = ast.If(test=E().visit(clone(v)), body=block(st.body) or [ast.Pass()], orelse=block(st.orelse))
+                    out.append(n)
+            elif isinstance(st, (ast.For, ast.While)):
+                n = clone(st)
+                if isinstance(st, ast.For):
+                    n.iter = E().visit(n.iter)
+                else:
+                    n.test = E().visit(n.test)
+                n.body = block(st.body) or [ast.Pass()]
+                n.orelse = block(st.orelse)
+                out.append(n)
+            else:
+                out.append(E().visit(clone(st)))
+        return out
+    return block(stmts)
+
+
+def _split_flag_chain(node, flag):
+    """if <flag [and P]>: A  (elif|else) <not flag [and Q]>: B   ->  ((P, A), (Q, B))"""
+    def parts(test):
+        conj = test.values if isinstance(test, ast.BoolOp) and isinstance(test.op, ast.And) else [test]
+        pol = None
+        rest = []
+        for c in conj:
+            if isinstance(c, ast.Name) and c.id == flag:
+                pol = True
+            elif isinstance(c, ast.UnaryOp) and isinstance(c.op, ast.Not) and isinstance(c.operand, ast.Name) and c.operand.id == flag:
+                pol = False
+            else:
+                rest.append(c)
+        return pol, rest
+    pol, rest = parts(node.test)
+    if pol is None:
+        return None, None
+    first = (rest, node.body)
+    other = None
+    if len(node.orelse) == 1 and isinstance(node.orelse[0], ast.If):
+        p2, r2 = parts(node.orelse[0].test)
+        if p2 is not None and p2 != pol and not node.orelse[0].orelse:
+            other = (r2, node.orelse[0].body)
+    elif node.orelse:
+        other = ([], node.orelse)
+    if other is None:
+        return None, None
+    return (first, other) if pol else (other, first)
+
+
+def _compare_guarded(tp, bp, tn, bn, f, roles):
+    from collections import Counter
+    rm = reflect.Reflector(roles, True, f)
+    rp = reflect.Reflector(roles, False, f)
+    rm.inl, rp.inl = {}, {}
+    fl, fr = [], []
+    gl = tuple(sorted(rm.cond(c) for c in tp))
+    gr = tuple(sorted(rp.cond(c) for c in tn))
+    rm._block(bp, gl, fl)
+    rp._block(bn, gr, fr)
+    key = lambda x: (tuple(sorted(x[0])), x[1])
+    cl, cr = Counter(key(x) for x in fl), Counter(key(x) for x in fr)
+    return list((cl - cr).elements()), list((cr - cl).elements()), len(fl), len(fr)
